@@ -114,6 +114,7 @@ func shrinkC11c(w *c11cW) []interface{} {
 }
 
 type c11cJob struct {
+	graph        string
 	id           string
 	prog         []*gripql.GraphStatement
 	rows         []string
@@ -154,13 +155,18 @@ func execC11c(w *c11cW, x *Exec) *Outcome {
 				if ro.setup != nil {
 					return
 				}
-				srv.DB.AddGraph("g")
-				g, _ := srv.DB.Graph("g")
-				for _, v := range w.Graph.V {
-					g.AddVertex([]*gdbiVertex{toGV(v)})
-				}
-				for _, e := range w.Graph.E {
-					g.AddEdge([]*gdbiVertex{toGE(e)})
+				// two graphs with the same content; "ag" sorts before "g" in the job
+				// directory, so that a job of the second half of the run can precede a
+				// finished one there
+				for _, gn := range []string{"g", "ag"} {
+					srv.DB.AddGraph(gn)
+					g, _ := srv.DB.Graph(gn)
+					for _, v := range w.Graph.V {
+						g.AddVertex([]*gdbiVertex{toGV(v)})
+					}
+					for _, e := range w.Graph.E {
+						g.AddEdge([]*gdbiVertex{toGE(e)})
+					}
 				}
 				srv.Srv.VerifRefreshGraphMap()
 			})
@@ -174,15 +180,19 @@ func execC11c(w *c11cW, x *Exec) *Outcome {
 					if err != nil {
 						continue
 					}
+					gn := "g"
+					if i%2 == 1 {
+						gn = "ag"
+					}
 					ts := &traversalStream{}
-					if err := srv.Srv.Traversal(&gripql.GraphQuery{Graph: "g", Query: p}, ts); err != nil {
+					if err := srv.Srv.Traversal(&gripql.GraphQuery{Graph: gn, Query: p}, ts); err != nil {
 						continue
 					}
-					job, err := srv.submitUnary(&gripql.GraphQuery{Graph: "g", Query: p})
+					job, err := srv.submitUnary(&gripql.GraphQuery{Graph: gn, Query: p})
 					if err != nil || job == nil {
 						continue
 					}
-					jr := &c11cJob{id: job.Id, prog: p, rows: ts.Rows}
+					jr := &c11cJob{graph: gn, id: job.Id, prog: p, rows: ts.Rows}
 					ro.jobs = append(ro.jobs, jr)
 					for n := 0; n < 600; n++ {
 						st, e := srv.Srv.GetJob(ctx, job)
@@ -200,7 +210,7 @@ func execC11c(w *c11cW, x *Exec) *Outcome {
 					}
 					if jr.done && i < len(w.Delete) && w.Delete[i] {
 						jr.deleteBegun = true
-						if _, err := srv.Srv.DeleteJob(ctx, &gripql.QueryJob{Graph: "g", Id: jr.id}); err == nil {
+						if _, err := srv.Srv.DeleteJob(ctx, &gripql.QueryJob{Graph: jr.graph, Id: jr.id}); err == nil {
 							jr.deleteAcked = true
 						}
 					}
@@ -341,15 +351,19 @@ func checkAfterDeath(x *Exec, w *c11cW, jobs []*c11cJob, disk *simkv.Disk, dir s
 			return
 		}
 		ctx := context.Background()
-		ls := &jobListStream{}
-		srv.Srv.ListJobs(&gripql.GraphID{Graph: "g"}, ls)
 		listed := map[string]bool{}
-		for _, j := range ls.Jobs {
-			listed[j.Id] = true
+		graphOf := map[string]string{}
+		for _, gn := range []string{"g", "ag"} {
+			ls := &jobListStream{}
+			srv.Srv.ListJobs(&gripql.GraphID{Graph: gn}, ls)
+			for _, j := range ls.Jobs {
+				listed[j.Id] = true
+				graphOf[j.Id] = gn
+			}
 		}
 		view := func(id string) []string {
 			ts := &traversalStream{}
-			srv.Srv.ViewJob(&gripql.QueryJob{Graph: "g", Id: id}, ts)
+			srv.Srv.ViewJob(&gripql.QueryJob{Graph: graphOf[id], Id: id}, ts)
 			return ts.Rows
 		}
 		for _, jr := range jobs {
@@ -365,7 +379,7 @@ func checkAfterDeath(x *Exec, w *c11cW, jobs []*c11cJob, disk *simkv.Disk, dir s
 					fail("completed-job-lost", fmt.Sprintf("job %s (%s) had been reported COMPLETE", jr.id, stmtNames(jr.prog)))
 					continue
 				}
-				st, err := srv.Srv.GetJob(ctx, &gripql.QueryJob{Graph: "g", Id: jr.id})
+				st, err := srv.Srv.GetJob(ctx, &gripql.QueryJob{Graph: jr.graph, Id: jr.id})
 				if err != nil || st.State != gripql.JobState_COMPLETE || int(st.Count) != len(jr.rows) {
 					fail("completed-job-status-changed", fmt.Sprintf("job %s (%s): status after restart %v err %v, expected COMPLETE with count %d", jr.id, stmtNames(jr.prog), st, err, len(jr.rows)))
 					continue
@@ -375,7 +389,7 @@ func checkAfterDeath(x *Exec, w *c11cW, jobs []*c11cJob, disk *simkv.Disk, dir s
 					continue
 				}
 				ts := &traversalStream{}
-				if err := srv.Srv.ResumeJob(&gripql.ExtendQuery{Graph: "g", SrcId: jr.id, Query: gen.StmtsOf(gen.Count())}, ts); err != nil {
+				if err := srv.Srv.ResumeJob(&gripql.ExtendQuery{Graph: jr.graph, SrcId: jr.id, Query: gen.StmtsOf(gen.Count())}, ts); err != nil {
 					fail("completed-job-not-resumable", fmt.Sprintf("job %s (%s): %v", jr.id, stmtNames(jr.prog), err))
 					continue
 				}
@@ -388,7 +402,7 @@ func checkAfterDeath(x *Exec, w *c11cW, jobs []*c11cJob, disk *simkv.Disk, dir s
 		}
 		// whatever the restarted server reports complete must be faithful
 		for id := range listed {
-			st, err := srv.Srv.GetJob(ctx, &gripql.QueryJob{Graph: "g", Id: id})
+			st, err := srv.Srv.GetJob(ctx, &gripql.QueryJob{Graph: graphOf[id], Id: id})
 			if err != nil || st == nil {
 				fail("listed-job-without-status", fmt.Sprintf("job %s: %v", id, err))
 				continue
@@ -398,7 +412,7 @@ func checkAfterDeath(x *Exec, w *c11cW, jobs []*c11cJob, disk *simkv.Disk, dir s
 				continue
 			}
 			ts := &traversalStream{}
-			if err := srv.Srv.Traversal(&gripql.GraphQuery{Graph: "g", Query: st.Query}, ts); err != nil {
+			if err := srv.Srv.Traversal(&gripql.GraphQuery{Graph: graphOf[id], Query: st.Query}, ts); err != nil {
 				fail("listed-job-query-unreadable", fmt.Sprintf("job %s: recorded query fails: %v", id, err))
 				continue
 			}
